@@ -38,16 +38,24 @@ def consts(off=(), workers=2, trace=False):
 
 
 def mc(ctx, names, tag, off=(), workers=2, invariants=SAFETY, liveness=False, simulate=None, depth=None,
-       expect="ok", timeout=1200, tlc_workers=8, dump=None):
+       expect="ok", timeout=1200, tlc_workers=8, dump=None, sketch=None):
     """Model-check Grevm.tla on the named blocks (exhaustively, or `simulate` random behaviours)."""
     bs = blocks()
     mod = ctx.path(f"GrevmMC_{tag}.tla")
     os.makedirs(os.path.dirname(mod), exist_ok=True)
     # the module name must equal the file name
     name = os.path.splitext(os.path.basename(mod))[0]
-    tlc.write_module(mod, name, "Grevm", {"MCBlocks": "{" + ", ".join(block_tla(bs[n]) for n in names) + "}"})
+    defs = {"MCBlocks": "{" + ", ".join(block_tla(bs[n]) for n in names) + "}"}
     kw = {}
+    if sketch:
+        # a scenario sketch: a state constraint that prunes the search to schedules of one shape (directed search
+        # for a counterexample on a block too large to explore exhaustively; never used to claim absence)
+        defs["Sketch"] = sketch
+        kw["constraints"] = ["Sketch"]
+    tlc.write_module(mod, name, "Grevm", defs)
     if simulate:
+        if not ctx.quick():
+            simulate = max(50, int(simulate * float(os.environ.get("VERIF_THOROUGH_SCALE", "1"))))   # smoke runs only
         kw.update(simulate=simulate, depth=depth or 600)
     if dump:
         kw["dump_trace"] = dump
@@ -101,7 +109,7 @@ def guide_from_dump(path):
 
 
 def witness(ctx, guard, block, invariants=("CommitMatchesRef", "CommittedReadsFresh", "FinalOk", "FinalityFresh"),
-            timeout=1500, regenerate=False, workers=2):
+            timeout=1500, regenerate=False, workers=2, sketch=None):
     """Counterexample of the specification with `guard` switched off = a schedule in which the guard is
     load-bearing. Cached under spec/witness (it depends on the specification only)."""
     os.makedirs(WITNESS_DIR, exist_ok=True)
@@ -111,7 +119,7 @@ def witness(ctx, guard, block, invariants=("CommitMatchesRef", "CommittedReadsFr
             return json.load(f)
     dump = ctx.path(f"dump_{guard}_{block}.json")
     r = mc(ctx, [block], f"wit_{guard}_{block}", off=(guard,), invariants=invariants, expect="any", timeout=timeout,
-           dump=dump, workers=workers)
+           dump=dump, workers=workers, sketch=sketch)
     w = {"guard": guard, "block": block, "found": not r["ok"], "invariant": r["invariant"] or r["violation"],
          "depth": len(r["trace_actions"]), "distinct_states": r["distinct"], "guide": []}
     if not r["ok"] and os.path.exists(dump):
@@ -132,7 +140,7 @@ def goal(ctx, name, block, timeout=1500, regenerate=False, workers=2):
     dump = ctx.path(f"dump_goal_{name}_{block}.json")
     r = mc(ctx, [block], f"goal_{name}_{block}", invariants=(f"NotReach_{name}",), expect="any", timeout=timeout, dump=dump, workers=workers)
     w = {"guard": "goal_" + name, "block": block, "found": not r["ok"], "invariant": r["invariant"] or r["violation"],
-         "depth": len(r["trace_actions"]), "distinct_states": r["distinct"], "guide": []}
+         "depth": len(r["trace_actions"]), "distinct_states": r["distinct"], "guide": [], "sketch": sketch}
     if not r["ok"] and os.path.exists(dump):
         w["guide"] = guide_from_dump(dump)
     with open(cache, "w") as f:
@@ -237,7 +245,7 @@ def lifecycle(ctx, prop, quick):
     ctx.tlc_runs.append({"name": "lifecycle_rules", "module": "rules/Lifecycle", "states": r["states"], "wall_s": r["wall_s"], "ok": r["ok"], "violation": r["violation"], "invariant": None})
     if not r["ok"]:
         raise ToolError("rules/Lifecycle.tla: a consequence of the rule (ASSUME) fails or TLC failed\n" + tlc.tail(r, 20))
-    h = ctx.vh("lifecycle", {"cases": out, "stride": 5 if quick else 1, "offset": ctx.seed % 5 if quick else 0}, timeout=3000)
+    h = ctx.vh("lifecycle", {"cases": out, "stride": 5 if quick else 1, "offset": (ctx.seed % 5) if quick else 0}, timeout=3000)
     if h["model_mismatch"]:
         m = h["model_mismatch"][0]
         raise ToolError(f"rules/Lifecycle.tla disagrees with stock revm State: case {json.dumps(m['case'])[:300]} step {m['step']}: revm [{m['revm_state']}] rule [{m['rule']}]")
